@@ -144,6 +144,9 @@ def default_knobs(rng: Rng, profile: str) -> Dict[str, Any]:
     # only where no call stack is built from them
     k["tiny_events"] = bool(k["fractional"]) and profile in ("loader", "symtab") and rng.chance(0.5)
     k["flow_p"] = rng.choice([0.0, 0.5, 0.5])
+    k["rank_at_border"] = profile == "files" and rng.chance(0.3)
+    k["long_kernels"] = profile in ("callgraph", "loader", "env") and rng.chance(0.12)
+    k["name_explosion"] = 0
     k["zero_dur_kernels"] = (not k["fractional"]) and profile in ("callgraph", "loader", "symtab", "env") and rng.chance(0.3)
     k["corr_overlap"] = rng.chance(0.5)
     k["boundary"] = (not k["fractional"]) and profile in ("loader", "symtab") and rng.chance(0.25)
@@ -276,6 +279,9 @@ class _RankGen:
             dur = self.dur_ticks(1, 40)
             if self.k.get("zero_dur_kernels") and r.chance(0.15):
                 dur = 0  # Kineto reports very short kernels with a duration of 0 us
+            elif self.k.get("long_kernels") and r.chance(0.08):
+                # a hung collective / a capture that ran for a long time: tens of minutes in one kernel
+                dur = r.randint(1_200_000_000, 2_600_000_000) * self.unit
             args = {"External id": self.ext_id, "queued": 0, "device": self.dev, "context": 1,
                     "stream": stream, "correlation": corr, "registers per thread": 32,
                     "shared memory": 0, "grid": [r.randint(1, 64), 1, 1], "block": [128, 1, 1]}
@@ -485,6 +491,13 @@ class _RankGen:
         first_start = t
         t0_end = self.emit_op(self.host_pid, main_tid, t, k["max_depth"], first_names, [1])  # leaf op
         t = t0_end + self.gap(zero_ok=False)
+        for i in range(int(k.get("name_explosion") or 0)):
+            # many operators with names of their own: the symbol table grows past the narrow integer widths
+            self.ext_id += 1
+            d = self.dur_ticks(1, 3)
+            self.add_x("host", "cpu_op", f"custom::op_{self.rank}_{i}", self.host_pid, main_tid, t, d,
+                       {"External id": self.ext_id})
+            t += d + (self.unit if self.frac else 1)
         bwd_windows: List[Tuple[int, int]] = []
         step_windows: List[Tuple[int, int]] = []
 
@@ -782,8 +795,34 @@ def gen_world(rng: Rng, profile: str = "loader", overrides: Optional[Dict[str, A
         if fmt == "mixed":
             fmt = "gz" if rr.fork("fmt").chance(0.5) else "json"
         name = pattern.format(r=rank) + (".gz" if fmt == "gz" else "")
-        files.append({"name": name, "format": fmt, "indent": knobs["indent"], "rank": rank, "doc": doc})
+        f_rec = {"name": name, "format": fmt, "indent": knobs["indent"], "rank": rank, "doc": doc}
+        if knobs.get("rank_at_border") and "distributedInfo" in doc and pos == 0:
+            _align_rank_text(rr.fork("border"), f_rec)
+        files.append(f_rec)
     return {"knobs": knobs, "files": files}
+
+
+def _align_rank_text(rng: Rng, f: Dict[str, Any]) -> None:
+    """Move the rank metadata behind the events (as update_trace_rank does for files that had none) and pad
+    the document so that the text `"rank": N` straddles a power-of-two offset of the (uncompressed) stream:
+    readers that scan the file in fixed-size blocks meet the text split across two blocks."""
+    doc = f["doc"]
+    di = doc.pop("distributedInfo")
+    doc["padding"] = ""
+    doc["distributedInfo"] = di
+    raw = render_file_bytes(f)
+    marker = b'"rank": '
+    at = raw.rfind(marker)
+    if at < 0:
+        return
+    first_digit = at + len(marker)
+    n_digits = len(str(di["rank"]))
+    block = 1 << rng.choice([10, 12, 13, 13, 16, 16, 20])
+    # where the border falls, relative to the first digit: inside the key text or between two digits
+    rel = rng.randint(-(len(marker) - 1), max(0, n_digits - 1))
+    pad = (-(first_digit + rel)) % block
+    doc["padding"] = "x" * pad
+    f["border"] = {"block": block, "relative_to_first_digit": rel}
 
 
 def _render_time(rng: Rng, knobs: Dict[str, Any], base: int, ticks: int) -> Any:
